@@ -1,1 +1,199 @@
+(* C05 — property theorems only.  Each is closed by [exact <lemma>] (or a two-line instance of one)
+   and followed by Print Assumptions.
+   Vocabulary: [w] molecular weights (tiled over the phases), [mol] molar flows of a stream
+   (flattened phase-major), [a] any linear functional of the flows: a row of the formula matrix
+   (atoms of one element per mole, tiled over the phases) or [w] itself (mass).
+   [weights o w a] is that functional expressed on the quantity the object acts on (a/w on a weight
+   basis), [buffer o w mol] that quantity (mass flows on a weight basis).  [balanced a r]: a . S_r = 0. *)
 From V Require Import Common.NumFacts C05.Model C05.Proofs.
+
+(* atoms_conserved / mass_conserved for streams, any object (reaction, parallel, series, system),
+   either basis, phase-less or phase-tagged: exact when the clamp did not fire, and always within
+   amax*eps, eps being the double nearest 1e-12 *)
+Theorem C05_stream_conserved : forall w o mol mol' a,
+  length w = length mol -> Forall (fun x => ~ x == 0) w ->
+  Forall (wf (length mol)) (obj_members o) ->
+  Forall (balanced (weights o w a)) (obj_members o) ->
+  call_stream w o mol = (None, mol') ->
+  (nonneg (fst (react_obj o (buffer o w mol))) -> vdot a mol' == vdot a mol) /\
+  (forall amax, 0 <= amax -> bounded amax (weights o w a) ->
+     - (amax * eps) <= vdot a mol' - vdot a mol /\ vdot a mol' - vdot a mol <= amax * eps).
+Proof. exact stream_conserved_lemma. Qed.
+Print Assumptions C05_stream_conserved.
+
+(* mass on a molar basis: MW . S = 0 for every member *)
+Theorem C05_mass_conserved_mol : forall w o mol mol',
+  obasis o = false -> length w = length mol -> Forall (fun x => ~ x == 0) w ->
+  Forall (wf (length mol)) (obj_members o) -> Forall (balanced w) (obj_members o) ->
+  call_stream w o mol = (None, mol') -> nonneg (fst (react_obj o mol)) ->
+  vdot w mol' == vdot w mol.
+Proof. exact mass_conserved_mol_lemma. Qed.
+Print Assumptions C05_mass_conserved_mol.
+
+(* mass on a weight basis: the coefficients of every member sum to zero *)
+Theorem C05_mass_conserved_wt : forall w o mol mol',
+  obasis o = true -> length w = length mol -> Forall (fun x => ~ x == 0) w ->
+  Forall (wf (length mol)) (obj_members o) -> Forall (fun r => qsum (st r) == 0) (obj_members o) ->
+  call_stream w o mol = (None, mol') -> nonneg (fst (react_obj o (to_mass w mol))) ->
+  vdot w mol' == vdot w mol.
+Proof. exact mass_conserved_wt_lemma. Qed.
+Print Assumptions C05_mass_conserved_wt.
+
+(* the same for bare arrays (numpy / SparseVector / SparseArray reacted as they are) *)
+Theorem C05_array_conserved : forall o v v' a,
+  Forall (wf (length v)) (obj_members o) -> Forall (balanced a) (obj_members o) ->
+  process o v = (None, v') ->
+  (nonneg (fst (react_obj o v)) -> vdot a v' == vdot a v) /\
+  (forall amax, 0 <= amax -> bounded amax a ->
+     - (amax * eps) <= vdot a v' - vdot a v /\ vdot a v' - vdot a v <= amax * eps) /\
+  nonneg v'.
+Proof. exact process_conserved. Qed.
+Print Assumptions C05_array_conserved.
+
+Theorem C05_array_routes : forall pt w o a, len_ok o a = true ->
+  call pt w o (MSparse a) = process o a /\
+  call pt w o (MNumpy a) = (match fst (process o a) with None => process o a | Some e => (Some e, a) end) /\
+  forall mol, call pt w o (MMassView mol) = via_mass w o mol.
+Proof. exact array_routes_lemma. Qed.
+Print Assumptions C05_array_routes.
+
+(* even when a ReactionSystem raises half way, what has been applied conserves *)
+Theorem C05_values_conserved : forall o m a,
+  Forall (wf (length m)) (obj_members o) -> Forall (balanced a) (obj_members o) ->
+  length (fst (react_obj o m)) = length m /\ vdot a (fst (react_obj o m)) == vdot a m.
+Proof. exact react_obj_conserves. Qed.
+Print Assumptions C05_values_conserved.
+
+(* consumed: exactly X*feed of the reactant, the others in stoichiometric proportion *)
+Theorem C05_consumed : forall r m, wf (length m) r -> normalised r ->
+  nthq (react r m) (ridx r) == nthq m (ridx r) - X r * nthq m (ridx r) /\
+  forall i, nthq (react r m) i == nthq m i + X r * nthq m (ridx r) * nthq (st r) i.
+Proof. exact consumed_lemma. Qed.
+Print Assumptions C05_consumed.
+
+(* every constructed reaction is normalised (Reaction.__init__ ends with _rescale) *)
+Theorem C05_constructed_normalised : forall is_str n P ts reactant x w ph r,
+  mk_reaction is_str n P ts reactant x w ph = Ok r -> normalised r.
+Proof. exact constructed_normalised_lemma. Qed.
+Print Assumptions C05_constructed_normalised.
+
+(* parallel reactions act on the feed composition, series reactions on the running composition,
+   a system applies its parts one after the other *)
+Theorem C05_parallel_def : forall rs m, Forall (wf (length m)) rs ->
+  forall i, nthq (react_parallel rs m) i == nthq m i + extent_sum m rs i.
+Proof. exact parallel_def_lemma. Qed.
+Print Assumptions C05_parallel_def.
+
+Theorem C05_series_def : forall r rs m,
+  react_series [] m = m /\ react_series (r :: rs) m = react_series rs (react r m).
+Proof. exact series_def_lemma. Qed.
+Print Assumptions C05_series_def.
+
+Theorem C05_system_def : forall b s ps m,
+  react_parts b [] m = (m, None) /\
+  react_parts b ((b, s) :: ps) m = react_parts b ps (react_rset s m).
+Proof. exact system_def_lemma. Qed.
+Print Assumptions C05_system_def.
+
+(* basis_equiv: the molar object and its per-mass version leave the same stream *)
+Theorem C05_basis_equiv : forall w o o' mol m1 m2,
+  obj_wt_of w o o' -> length w = length mol -> Forall (fun x => 0 < x) w ->
+  Forall (wf (length mol)) (obj_members o) ->
+  call_stream w o mol = (None, m1) -> call_stream w o' mol = (None, m2) ->
+  length m1 = length m2 /\ forall i, nthq m1 i == nthq m2 i.
+Proof. exact basis_equiv_lemma. Qed.
+Print Assumptions C05_basis_equiv.
+
+(* ... and set_reaction_basis produces exactly that per-mass version *)
+Theorem C05_rebase_is_wt_of : forall w r r', wt r = false -> normalised r -> length (st r) = length w ->
+  ~ nthq w (ridx r) == 0 -> set_basis w r true = Ok r' -> wt_of w r r'.
+Proof. exact set_basis_wt_of. Qed.
+Print Assumptions C05_rebase_is_wt_of.
+
+(* nonneg_or_raise *)
+Theorem C05_nonneg_or_raise : forall w o mol mol', length w = length mol -> Forall (fun x => 0 < x) w ->
+  Forall (wf (length mol)) (obj_members o) ->
+  call_stream w o mol = (None, mol') -> nonneg mol'.
+Proof. exact nonneg_lemma. Qed.
+Print Assumptions C05_nonneg_or_raise.
+
+Theorem C05_infeasible_raises : forall o v, snd (react_obj o v) = None ->
+  neg_sum (fst (react_obj o v)) < - eps -> process o v = (Some EInfeasible, fst (react_obj o v)).
+Proof. exact infeasible_lemma. Qed.
+Print Assumptions C05_infeasible_raises.
+
+Theorem C05_clamp_total : forall o v v', process o v = (None, v') ->
+  0 <= qsum v' - qsum (fst (react_obj o v)) /\ qsum v' - qsum (fst (react_obj o v)) <= eps.
+Proof. exact clamp_total_lemma. Qed.
+Print Assumptions C05_clamp_total.
+
+Theorem C05_eps_is_1e12 : eps <= 10000000000000001 # 10000000000000000000000000000 /\ 0 < eps.
+Proof. exact eps_value. Qed.
+Print Assumptions C05_eps_is_1e12.
+
+(* ---------- a phase-less Reaction called with a MultiStream ---------- *)
+(* the statement the property makes for that call ... *)
+Definition C05_multistream_nophase_statement : Prop :=
+  forall w r P mol mol', length w = length mol -> Forall (fun x => 0 < x) w ->
+    length mol = (P * length (st r))%nat -> normalised r ->
+    (* balanced in every phase row *)
+    vdot (firstn (length (st r)) w) (st r) == 0 ->
+    call_multi_nophase w r P mol = (None, mol') -> vdot w mol' == vdot w mol.
+
+Definition exW : vec := [16; 28; 32; 44; 18; 2; 46; 28].
+Definition exR : rxn := mkrxn [-1; 0; -2; 1; 2; 0; 0; 0] 0 (1 # 2) false [].
+Definition exMulti : vec := [4; 0; 16; 1; 1; 0; 0; 0; 2; 0; 32; 1; 1; 0; 0; 0].
+
+(* ... is refuted by the model of the code as it is: 1756 kg/hr go in, 748 come out, no exception *)
+Theorem C05_multistream_nophase_refuted : ~ C05_multistream_nophase_statement.
+Proof.
+  intros H.
+  pose (res := snd (call_multi_nophase (exW ++ exW) exR 2 exMulti)).
+  specialize (H (exW ++ exW) exR 2%nat exMulti res).
+  assert (E : ~ vdot (exW ++ exW) res == vdot (exW ++ exW) exMulti) by (vm_compute; congruence).
+  apply E. apply H.
+  - reflexivity.
+  - unfold exW; simpl. repeat (apply Forall_cons; [reflexivity|]). apply Forall_nil.
+  - reflexivity.
+  - vm_compute. reflexivity.
+  - vm_compute. reflexivity.
+  - vm_compute. reflexivity.
+Qed.
+Print Assumptions C05_multistream_nophase_refuted.
+(* the part that holds is C05_stream_conserved: streams whose phases fit the reaction (a phase-less
+   reaction with a single-phase Stream, a phase-tagged one with a MultiStream of the same phases). *)
+
+(* ---------- non-vacuity ---------- *)
+Definition exMol : vec := [4; 0; 16; 0; 1; 0; 0; 0].
+Definition exObj : robj := Simple false (Parallel [exR; mkrxn [0; -1; -3; 2; 2; 0; 0; 0] 1 (1 # 4) false []]).
+
+Example C05_nonvacuous_conserved :
+  length exW = length exMol /\ Forall (fun x => 0 < x) exW /\
+  Forall (wf (length exMol)) (obj_members exObj) /\
+  Forall (balanced (weights exObj exW exW)) (obj_members exObj) /\
+  Forall (balanced (weights exObj exW [1; 2; 0; 1; 0; 0; 2; 1])) (obj_members exObj) /\
+  exists mol', call_stream exW exObj exMol = (None, mol') /\ nonneg (fst (react_obj exObj (buffer exObj exW exMol))).
+Proof.
+  split; [reflexivity|]. split; [unfold exW; repeat (apply Forall_cons; [reflexivity|]); apply Forall_nil|].
+  split; [repeat constructor|]. split; [repeat constructor; vm_compute; reflexivity|].
+  split; [repeat constructor; vm_compute; reflexivity|].
+  eexists. split; [vm_compute; reflexivity|].
+  intros i. do 9 (destruct i as [|i]; [vm_compute; congruence|]). vm_compute. destruct i; congruence.
+Qed.
+
+Example C05_nonvacuous_basis_equiv :
+  exists r' m1 m2, set_basis exW exR true = Ok r' /\
+    obj_wt_of exW (Simple false (Single exR)) (Simple true (Single r')) /\
+    call_stream exW (Simple false (Single exR)) exMol = (None, m1) /\
+    call_stream exW (Simple true (Single r')) exMol = (None, m2).
+Proof.
+  destruct (set_basis exW exR true) as [r'|e] eqn:E; [|vm_compute in E; discriminate].
+  exists r'. eexists. eexists. split; [reflexivity|]. split.
+  - constructor. constructor. apply set_basis_wt_of; auto; try reflexivity; vm_compute; congruence.
+  - vm_compute in E. inversion E; subst. split; vm_compute; reflexivity.
+Qed.
+
+Example C05_nonvacuous_infeasible :
+  process (Simple false (Single (mkrxn [-1; 0; -2; 1; 2; 0; 0; 0] 0 1 false []))) [4; 0; 2; 0; 1; 0; 0; 0]
+  = (Some EInfeasible, [0; 0; -6; 4; 9; 0; 0; 0]).
+Proof. vm_compute. reflexivity. Qed.
